@@ -276,6 +276,16 @@ def execute(sc, out):
                         cfgb = dict(cfg)
                         cfgb["band"] = [lo, hi]
                         if not mask.any():
+                            an_e = SC.build_analyzer(buf, cfgb)
+                            outcomes = []
+                            for _ in range(2):
+                                try:
+                                    outcomes.append(("ok", len(an_e.compute().f)))
+                                except Exception as e_:
+                                    outcomes.append(("raised", type(e_).__name__))
+                            out.count("band_selecting_nothing")
+                            if outcomes[0][0] == "raised" and outcomes[1][0] == "ok":
+                                out.violate("band_not_inband_bins", "empty_band_retry", f"band [{lo:.6g},{hi:.6g}] contains no planned frequency: first compute() raised, the retry returned {outcomes[1][1]} bins")
                             continue
                         rb = SC.build_analyzer(buf, cfgb).compute()
                         rawb = SS.raw_fields(rb)
